@@ -1237,6 +1237,9 @@ def run(ctx):
     for name in ("wellformed", "malformed", "wellformed-wide", "malformed-wide"):
         streams.append((name, to_lines("tplrender", gen[name]), True))
     streams.append(("tail-echo", to_lines("tplrender", T.c01_tail_echo(ctx)), True))   # unresolved {var:n&me} ending the buffer (round c)
+    nf = T.c01_narrow_fields(ctx, drv)                 # every 8/16-bit tag field at limit-1 / limit / limit+1 (round g)
+    streams.append(("narrow-fields", to_lines("tplrender", nf["compared"]) + to_lines("tpltags", nf["tags"]), True))
+    streams.append(("narrow-fields-16bit", to_lines("tplrender", nf["faults-only"]), False))
     streams.append(("tagtree", to_lines("tpltags", gen["tagtree"]), True))
     streams.append(("g3", to_lines("tplrender", gen["g3"]), False))
     # the cache entry point (C17 uses the verdict; here only faults count)
